@@ -344,6 +344,12 @@ class Duration(timedelta):
         return NotImplemented
 
     def __neg__(self) -> Self:
+        signature = getattr(self, "_signature", None)
+        if signature is not None:
+            # Negate the duration the way it was specified, so that adding
+            # the result is the same as subtracting the original
+            return self.__class__(**{unit: -value for unit, value in signature.items()})
+
         return self.__class__(
             years=-self._years,
             months=-self._months,
